@@ -391,12 +391,32 @@ func NewKeyFromPublic(pub crypto.PublicKey) (*Key, error) {
 			return nil, fmt.Errorf("unsupported curve: %v", vk.Curve)
 		}
 
-		return NewKeyEC2(alg, vk.X.Bytes(), vk.Y.Bytes(), nil)
+		x, y := ec2Coordinates(vk)
+		return NewKeyEC2(alg, x, y, nil)
 	case ed25519.PublicKey:
 		return NewKeyOKP(AlgorithmEdDSA, []byte(vk), nil)
 	default:
 		return nil, ErrInvalidPubKey
 	}
+}
+
+// ec2Coordinates returns the x and y coordinates of an elliptic curve public key
+// as byte strings. A coordinate equal to zero is a string of zero octets of the
+// size of the curve's field rather than the empty string, which would read as
+// an absent coordinate; leading zero octets of any other value are restored by
+// MarshalCBOR.
+//
+// Reference: https://datatracker.ietf.org/doc/html/rfc9053#section-7.1.1
+func ec2Coordinates(pub *ecdsa.PublicKey) (x, y []byte) {
+	size := (pub.Curve.Params().BitSize + 7) / 8
+	return ec2Coordinate(pub.X, size), ec2Coordinate(pub.Y, size)
+}
+
+func ec2Coordinate(v *big.Int, size int) []byte {
+	if v.Sign() == 0 {
+		return make([]byte, size)
+	}
+	return v.Bytes()
 }
 
 // NewKeyFromPrivate returns a Key created using provided [crypto.PrivateKey].
@@ -410,7 +430,8 @@ func NewKeyFromPrivate(priv crypto.PrivateKey) (*Key, error) {
 			return nil, fmt.Errorf("unsupported curve: %v", sk.Curve)
 		}
 
-		return NewKeyEC2(alg, sk.X.Bytes(), sk.Y.Bytes(), sk.D.Bytes())
+		x, y := ec2Coordinates(&sk.PublicKey)
+		return NewKeyEC2(alg, x, y, sk.D.Bytes())
 	case ed25519.PrivateKey:
 		return NewKeyOKP(AlgorithmEdDSA, []byte(sk[32:]), []byte(sk[:32]))
 	default:
